@@ -181,6 +181,13 @@ class InterpreterBase:
             self.evaluate_codeblock(self.ast, start=1)
         except SubdirDoneRequest:
             pass
+        except (BreakRequest, ContinueRequest) as e:
+            keyword = 'break' if isinstance(e, BreakRequest) else 'continue'
+            err = InvalidCode(f'"{keyword}" is only allowed inside a foreach loop.')
+            err.lineno = self.current_node.lineno
+            err.colno = self.current_node.colno
+            err.file = os.path.join(self.source_root, self.subdir, environment.build_filename)
+            raise err
 
     def evaluate_codeblock(self, node: mparser.CodeBlockNode, start: int = 0, end: T.Optional[int] = None) -> None:
         if node is None:
